@@ -88,6 +88,14 @@ def run_real(kex_algs, banner, gexfn, refuse_after=None):
         a = gexfn(mn, pf, mx)
         answers.append(a)
         return a
+    if isinstance(gexfn, dict):     # one policy per algorithm
+        def per(alg):
+            def g(mn, pf, mx):
+                a = gexfn[alg](mn, pf, mx)
+                answers.append(a)
+                return a
+            return g
+        gex = {alg: per(alg) for alg in gexfn}
     payload = fn.kexinit(kex_algs, ['ssh-ed25519'], ['aes256-ctr'], ['hmac-sha2-256'])
     srv = fn.Server(banner=banner, kexinit_payload=payload, gex=gex)
     net = fn.FakeNet({'10.9.9.9': srv})
@@ -151,6 +159,15 @@ def run(ctx):
                     fam.append((1 << i, style, osh, SHA256 if (i + osh) % 2 else SHA1))
                     fam.append((1 << i | 1 << UNIVERSE.index(2048), style, osh, SHA1 if (i + osh) % 2 else SHA256))
     cases = []
+    # two group-exchange algorithms with a moduli policy of their own each (servers may keep separate groups per algorithm): what is
+    # reported for one algorithm is measured on that algorithm (seed C05-11: the first algorithm's size copied to the second)
+    for k_ in range(ctx.scale(12, 150)):
+        m1, m2 = r.randrange(1, 512), r.randrange(1, 512)
+        style = r.choice(list(STYLES))
+        M1 = [m for i, m in enumerate(UNIVERSE) if m1 >> i & 1]
+        M2 = [m for i, m in enumerate(UNIVERSE) if m2 >> i & 1]
+        cases.append(({'kind': 'per-alg', 'M': {SHA1: M1, SHA256: M2}, 'style': style, 'openssh': r.random() < 0.5, 'algs': [SHA1, SHA256]},
+                      {SHA1: STYLES[style](M1), SHA256: STYLES[style](M2)}, None))
     for mask, style, osh, alg in fam:
         M = [m for i, m in enumerate(UNIVERSE) if mask >> i & 1]
         cases.append(({'kind': 'family', 'M': M, 'style': style, 'openssh': osh, 'algs': [alg]}, STYLES[style](M), None))
@@ -166,6 +183,7 @@ def run(ctx):
         cases.append(({'kind': 'scripted', 'script': script, 'openssh': (k_ % 5 == 0) or r.random() < 0.6, 'algs': algs, 'refuse_after': ra},
                       (lambda it_: (lambda mn, pf, mx: next(it_, None)))(it), ra))
     lines, expect = [], []
+    ra_lines, ra_expect = [], []
     nonmono = []
     for case_no, (desc, gexfn, ra) in enumerate(cases):
         # OpenSSH in all the spellings servers really send (portable, Windows build, vendor-prefixed, bare), and other products incl. look-alikes in another case
@@ -195,6 +213,18 @@ def run(ctx):
                 exp.append({'alg': a, 'reported': res['sizes'].get(a), 'note': any('fallback mechanism' in (t or '') for l in res['entries'][a][3:4] for t in l),
                             'probes': [list(q) for q in seg]})
             expect.append((exp, desc))
+        if ra is not None:
+            # reconnect-failing servers: every connection after the first `ra` is refused.  Model: the answers that arrived, then failed
+            # reconnects for ever; compared on what is reported per algorithm (the model logs refused probes too, the server cannot)
+            ra_lines.append('gex.audit %s %s %s' % (tbool(desc['openssh']), tstrs(desc['algs']), ','.join(toks + ['r'] * 24)))
+            ra_expect.append(([{'alg': a, 'reported': res['sizes'].get(a),
+                                'note': any('fallback mechanism' in (t or '') for l in res['entries'][a][3:4] for t in l)} for a in offered], desc))
+            # the statement: "a server that refuses … in this phase gets no size rather than a wrong one" — with one algorithm on offer, a refused
+            # connection during its probing leaves it without a size
+            if len(offered) == 1 and res['connects'] > ra and res['sizes'].get(offered[0]) is not None:
+                failures.append({'sig': {'kind': 'size_reported_after_refused_probe'}, 'input': desc,
+                                 'observed': {'reported': res['sizes'].get(offered[0]), 'requests': res['requests'], 'answers': res['answers'], 'connections': res['connects']},
+                                 'expected': 'no size: the probe sequence was cut by a refused connection', 'how': 'harness/props/C12.py run_real(): GEXTest.run over fakenet'})
         # ---- oracle: the statement itself on the log
         idx = [i for i, q in enumerate(res['requests']) if q == (512, 1024, 1536)]
         for k, a in enumerate(offered):
@@ -222,8 +252,8 @@ def run(ctx):
                     if got != want_f:
                         failures.append({'sig': {'kind': 'followup_probe_result_ignored'}, 'input': desc, 'observed': {'reported': got, 'requests': seg_q, 'answers': seg_a},
                                          'expected': {'reported': want_f}, 'how': 'harness/props/C12.py run_real(): GEXTest.run over fakenet'})
-            elif got != want or got != full_sequence_expectation(STYLES[desc['style']](desc['M']), desc['openssh'])[0]:
-                want = full_sequence_expectation(STYLES[desc['style']](desc['M']), desc['openssh'])[0]
+            elif got != want or got != full_sequence_expectation(STYLES[desc['style']](desc['M'][a] if isinstance(desc['M'], dict) else desc['M']), desc['openssh'])[0]:
+                want = full_sequence_expectation(STYLES[desc['style']](desc['M'][a] if isinstance(desc['M'], dict) else desc['M']), desc['openssh'])[0]
                 failures.append({'sig': {'kind': 'wrong_modulus_reported'}, 'input': desc, 'observed': {'reported': got, 'requests': seg_q, 'answers': seg_a},
                                  'expected': {'reported': want}, 'how': 'harness/props/C12.py run_real(): GEXTest.run over fakenet'})
             ent = res['entries'][a]
@@ -257,6 +287,14 @@ def run(ctx):
                 note = any('fallback mechanism' in (t or '') for l in res['entries'][a][3:4] for t in l)
                 lines.append('gex.rate %s %d %s' % (t_desc(master[a]), res['sizes'][a], tbool(note)))
                 expect.append((res['entries'][a], {'rate': a, 'size': res['sizes'][a]}))
+    ra_model = ctx.driver(ra_lines) if ctx.driver_ok else []
+    for line, m, (want, desc) in zip(ra_lines, ra_model, ra_expect):
+        got = {e['alg']: (e['reported'], e['note']) for e in (m.get('ok') or [])}
+        for w in want:
+            # an algorithm the model never reached (the loop was left after a failed reconnect) has no size
+            if got.get(w['alg'], (None, False)) != (w['reported'], w['note']):
+                mismatches.append({'stream': 'gex.audit(reconnect-failing)', 'op': line[:300], 'model': got, 'impl': want, 'server': {k: v for k, v in desc.items() if k != 'script'}})
+                break
     model = ctx.driver(lines) if ctx.driver_ok else []
     for line, m, (want, desc) in zip(lines, model, expect):
         if m.get('ok') != want:
